@@ -17,6 +17,7 @@ Wrappers ==
     {EW(w) : w \in IdentityEntryWrappers \cup {"NoneE"} \cup MergeFirst \cup MergeLast}
     \cup {[EW("GDims") EXCEPT !.ds = <<"x", "y">>, !.deny = DenyList], [EW("GDims") EXCEPT !.ds = <<"x">>],
           [EW("GDimsStream") EXCEPT !.ds = <<"z">>, !.deny = DenyList], EW("GDimsStream"),
+          [EW("GDimsFormat") EXCEPT !.ds = <<"z", "x">>, !.deny = DenyList],
           [EW("EDims") EXCEPT !.ds = <<"p">>], [EW("RootDims") EXCEPT !.ds = <<"q">>],
           [EW("EFlag") EXCEPT !.f = "A"], [EW("RootFlag") EXCEPT !.f = "B"], [EW("FlagStream") EXCEPT !.f = "A"]}
 
